@@ -411,58 +411,73 @@ class _ParamSubst(ast.NodeTransformer):
         return n
 
 
-def inline_fresh_helpers(repo: Repo, max_rounds: int = 20) -> list[str]:
-    """A private own-class method that is called from exactly one place, is not mentioned by any rule and has a straight
-    shape (no early returns) is what "extract method" produces.  Its body is spliced back into the caller (in the parsed
-    tree only), so that extracting part of an anchored function into a helper is invisible to the rules.  Anything that does
-    not fit the supported shapes is left alone (the call then is an opaque own-method call, as before)."""
-    from .source import clone
-    done: list[str] = []
-    prot = _protected_names()
-    for _ in range(max_rounds):
-        changed = False
-        # occurrences of every attribute name in the non-trio repository
-        occ: dict[str, list] = {}
-        for rel, tree in repo.non_trio_modules().items():
-            for n in ast.walk(tree):
-                if isinstance(n, ast.Attribute):
-                    occ.setdefault(n.attr, []).append(n)
-        for f in list(repo.all_funcs):
-            if f.module.endswith("_trio.py") or f.cls is None or f.parent is not None:
+def _helper_candidates(repo: Repo, prot: set):
+    """private own-class methods that no rule names, with every use a supported `self.name(...)` call in the same class"""
+    occ: dict[str, list] = {}
+    for rel, tree in repo.non_trio_modules().items():
+        for n in ast.walk(tree):
+            if isinstance(n, ast.Attribute):
+                occ.setdefault(n.attr, []).append(n)
+    out = []
+    for f in list(repo.all_funcs):
+        if f.module.endswith("_trio.py") or f.cls is None or f.parent is not None:
+            continue
+        h = f.node
+        name = h.name
+        if not name.startswith("_") or name.startswith("__") or name in prot:
+            continue
+        decos = [ast.unparse(d) for d in h.decorator_list]
+        if decos not in ([], ["staticmethod"]):
+            continue
+        if len(repo.funcs.get(f.qual, [])) != 1:
+            continue
+        body = [s for s in h.body if not (isinstance(s, ast.Expr) and isinstance(s.value, ast.Constant) and isinstance(s.value.value, str))]
+        if not body or len(list(ast.walk(h))) > 900:
+            continue
+        if any(isinstance(x, (ast.FunctionDef, ast.AsyncFunctionDef, ast.ClassDef, ast.Lambda, ast.Yield, ast.YieldFrom, ast.Global, ast.Nonlocal))
+               for s_ in body for x in ast.walk(s_)):
+            continue
+        if any(isinstance(x, ast.Attribute) and x.attr == name for s_ in body for x in ast.walk(s_)):
+            continue        # recursive
+        rets = [x for s_ in body for x in ast.walk(s_) if isinstance(x, ast.Return)]
+        last_ret = body[-1] if isinstance(body[-1], ast.Return) else None
+        early = [r for r in rets if r is not last_ret]
+        if early:
+            # an early return becomes a jump out of a synthetic try block: it must not sit inside a try statement of the helper
+            bad = False
+            for r in early:
+                cur = getattr(r, "_parent", None)
+                while cur is not None and cur is not h:
+                    if isinstance(cur, ast.Try):
+                        bad = True
+                    cur = getattr(cur, "_parent", None)
+            if bad:
                 continue
-            name = f.node.name
-            if not name.startswith("_") or name.startswith("__") or name in prot or f.node.decorator_list:
-                continue
-            if len(repo.funcs.get(f.qual, [])) != 1:
-                continue
-            sites = occ.get(name, [])
-            if len(sites) != 1:
-                continue
-            at = sites[0]
+        sites = occ.get(name, [])
+        if not 1 <= len(sites) <= 8:
+            continue
+        plans = []
+        ok = True
+        for at in sites:
             call = getattr(at, "_parent", None)
             if not (isinstance(call, ast.Call) and call.func is at and isinstance(at.value, ast.Name) and at.value.id == "self"):
-                continue
+                ok = False
+                break
             caller = repo.func_of(call)
-            if caller is None or caller.cls != f.cls or caller.node is f.node:
-                continue
-            h = f.node
-            body = [s for s in h.body if not (isinstance(s, ast.Expr) and isinstance(s.value, ast.Constant) and isinstance(s.value.value, str))]
-            if not body or any(isinstance(x, (ast.FunctionDef, ast.AsyncFunctionDef, ast.ClassDef, ast.Lambda, ast.Yield, ast.YieldFrom, ast.Global, ast.Nonlocal))
-                               for s_ in body for x in ast.walk(s_)):
-                continue
-            rets = [x for s_ in body for x in ast.walk(s_) if isinstance(x, ast.Return)]
-            last_ret = body[-1] if isinstance(body[-1], ast.Return) else None
-            if any(r is not last_ret for r in rets):
-                continue
-            # call-site shape
-            outer = call
-            par = getattr(outer, "_parent", None)
+            if caller is None or caller.cls != f.cls or caller.node is h or any(x is call for x in ast.walk(h)):
+                ok = False
+                break
+            outer, par = call, getattr(call, "_parent", None)
             awaited = isinstance(par, ast.Await)
             if awaited != isinstance(h, ast.AsyncFunctionDef):
-                continue
+                ok = False
+                break
             if awaited:
                 outer, par = par, getattr(par, "_parent", None)
             st = par
+            neg = False
+            if isinstance(st, ast.UnaryOp) and isinstance(st.op, ast.Not) and isinstance(getattr(st, "_parent", None), (ast.If,)) and st._parent.test is st:
+                neg, outer, st = True, st, st._parent
             if isinstance(st, ast.Expr) and st.value is outer:
                 shape = "expr"
             elif isinstance(st, ast.Assign) and st.value is outer and len(st.targets) == 1:
@@ -471,47 +486,97 @@ def inline_fresh_helpers(repo: Repo, max_rounds: int = 20) -> list[str]:
                 shape = "assign"
             elif isinstance(st, ast.Return) and st.value is outer:
                 shape = "return"
+            elif isinstance(st, ast.If) and st.test is outer:
+                shape = "test"
             else:
-                continue
-            if shape != "expr" and (last_ret is None or last_ret.value is None):
-                continue
-            # parameters
-            a = h.args
-            if a.vararg or a.kwarg or a.posonlyargs and False:
-                continue
-            params = [x.arg for x in a.posonlyargs + a.args][1:]
-            defaults = dict(zip(reversed(params), reversed(a.defaults))) if a.defaults else {}
-            kwonly = {x.arg: d for x, d in zip(a.kwonlyargs, a.kw_defaults)}
+                ok = False
+                break
+            plans.append((caller, call, st, shape, awaited))
+        if not ok:
+            continue
+        out.append((f, body, rets, last_ret, early, plans))
+    return out
+
+
+def inline_fresh_helpers(repo: Repo, max_inlines: int = 200) -> list[str]:
+    """"Extract method" in reverse.  A private own-class method (plain or @staticmethod) that no rule module mentions by name, is
+    not recursive, and is used only through `self.name(simple args)` calls standing as a statement, an assignment, a `return` or
+    the whole test of an `if`, is spliced into each of its callers in the parsed tree: parameters are substituted, locals renamed,
+    an early `return v` becomes `result = v` plus a jump out of a synthetic `try` block (the CFG routes it like any other raise).
+    The helper's own definition is dead code afterwards and is skipped by the writer tables.  Anything else stays an opaque
+    own-method call (it kills `self.` facts per A2), which may make a rule report a *missing mechanism* on a refactored tree -
+    a limitation, see DESIGN 9."""
+    from .source import clone
+    done: list[str] = []
+    prot = _protected_names()
+    serial = 0
+    queue: list = []
+    passes = 0
+    while True:
+        if not queue:
+            if passes >= 3 or len(done) >= max_inlines:
+                break
+            passes += 1
+            # call sites are AST nodes, so splicing statements elsewhere does not invalidate the plans of the other helpers;
+            # a later pass picks up calls that sat inside an inlined helper body (helpers calling helpers)
+            queue = _helper_candidates(repo, prot)
+            if not queue:
+                break
+        f, body, rets, last_ret, early, plans = queue.pop(0)
+        h = f.node
+        name = h.name
+        a = h.args
+        if a.vararg or a.kwarg:
+            prot.add(name)
+            continue
+        allp = [x.arg for x in a.posonlyargs + a.args]
+        params = allp if h.decorator_list else allp[1:]
+        defaults = dict(zip(reversed(allp), reversed(a.defaults))) if a.defaults else {}
+        kwonly = {x.arg: d for x, d in zip(a.kwonlyargs, a.kw_defaults)}
+        stored = {x.id for s_ in body for x in ast.walk(s_) if isinstance(x, ast.Name) and isinstance(x.ctx, (ast.Store, ast.Del))}
+        stored |= {hh.name for s_ in body for hh in ast.walk(s_) if isinstance(hh, ast.ExceptHandler) and hh.name}
+        ok_all = True
+        bindings = []
+        for caller, call, st, shape, awaited in plans:
             mapping = {}
             if len(call.args) > len(params) or any(isinstance(x, ast.Starred) for x in call.args) or any(k.arg is None for k in call.keywords):
-                continue
+                ok_all = False
+                break
             for pn, av in zip(params, call.args):
                 mapping[pn] = av
-            okk = True
             for k in call.keywords:
                 if k.arg in params or k.arg in kwonly:
                     mapping[k.arg] = k.value
                 else:
-                    okk = False
+                    ok_all = False
             for pn in params:
                 if pn not in mapping:
                     if pn in defaults:
                         mapping[pn] = defaults[pn]
                     else:
-                        okk = False
+                        ok_all = False
             for pn, d in kwonly.items():
                 if pn not in mapping:
                     if d is not None:
                         mapping[pn] = d
                     else:
-                        okk = False
-            if not okk or not all(_simple_arg(v) for v in mapping.values()):
-                continue
-            stored = {x.id for s_ in body for x in ast.walk(s_) if isinstance(x, ast.Name) and isinstance(x.ctx, (ast.Store, ast.Del))}
-            stored |= {hh.name for s_ in body for hh in ast.walk(s_) if isinstance(hh, ast.ExceptHandler) and hh.name}
-            if stored & set(mapping):
-                continue
-            renames = {v: f"{v}__{name.strip('_')}" for v in stored}
+                        ok_all = False
+            if not ok_all or not all(_simple_arg(v) for v in mapping.values()) or (stored & set(mapping)):
+                ok_all = False
+                break
+            if shape in ("assign", "return", "test") and not any(r.value is not None for r in rets):
+                ok_all = False
+                break
+            bindings.append(mapping)
+        if not ok_all:
+            prot.add(name)     # not inlinable: do not look at it again
+            continue
+        for (caller, call, st, shape, awaited), mapping in zip(plans, bindings):
+            serial += 1
+            tag = f"{name.strip('_')}_{serial}"
+            renames = {v: f"{v}__{tag}" for v in stored}
+            res = f"_res__{tag}"
+            jump = f"_InlineReturn__{tag}"
             new = []
             for s_ in body:
                 c = clone(s_)
@@ -519,45 +584,82 @@ def inline_fresh_helpers(repo: Repo, max_rounds: int = 20) -> list[str]:
                     if isinstance(hh, ast.ExceptHandler) and hh.name in renames:
                         hh.name = renames[hh.name]
                 new.append(_ParamSubst(mapping, renames).visit(c))
-            tail = None
-            if isinstance(new[-1], ast.Return):
-                tail = new.pop()
-            if shape == "expr":
-                if tail is not None and tail.value is not None and not isinstance(tail.value, (ast.Name, ast.Constant)):
-                    new.append(ast.copy_location(ast.Expr(tail.value), tail))
-            elif shape == "assign":
+            need_res = shape in ("assign", "return", "test")
+            use_block = bool(early)
+
+            def conv(stmts):
+                out = []
+                for s2 in stmts:
+                    if isinstance(s2, ast.Return):
+                        if need_res and s2.value is not None:
+                            out.append(ast.copy_location(ast.Assign(targets=[ast.Name(id=res, ctx=ast.Store())], value=s2.value), s2))
+                        elif s2.value is not None and not isinstance(s2.value, (ast.Name, ast.Constant)):
+                            out.append(ast.copy_location(ast.Expr(s2.value), s2))
+                        if use_block:
+                            out.append(ast.copy_location(ast.Raise(exc=ast.Name(id=jump, ctx=ast.Load()), cause=None), s2))
+                        continue
+                    for fld in ("body", "orelse", "finalbody"):
+                        v = getattr(s2, fld, None)
+                        if isinstance(v, list) and v and isinstance(v[0], ast.stmt):
+                            setattr(s2, fld, conv(v) or [ast.copy_location(ast.Pass(), s2)])
+                    if isinstance(s2, ast.Try):
+                        for hh in s2.handlers:
+                            hh.body = conv(hh.body) or [ast.copy_location(ast.Pass(), s2)]
+                    if isinstance(s2, ast.Match):
+                        for cs in s2.cases:
+                            cs.body = conv(cs.body) or [ast.copy_location(ast.Pass(), s2)]
+                    out.append(s2)
+                return out
+
+            new = conv(new)
+            pre = []
+            if need_res:
+                pre.append(ast.copy_location(ast.Assign(targets=[ast.Name(id=res, ctx=ast.Store())], value=ast.Constant(None)), st))
+            if use_block:
+                handler = ast.ExceptHandler(type=ast.Name(id=jump, ctx=ast.Load()), name=None, body=[ast.copy_location(ast.Pass(), st)])
+                blk = ast.copy_location(ast.Try(body=new or [ast.copy_location(ast.Pass(), st)], handlers=[handler], orelse=[], finalbody=[]), st)
+                ast.copy_location(handler, st)
+                new = [blk]
+            new = pre + new
+            if shape == "assign":
                 repl = clone(st)
-                repl.value = tail.value
-                new.append(ast.copy_location(repl, tail))
+                repl.value = ast.Name(id=res, ctx=ast.Load())
+                new.append(ast.copy_location(repl, st))
             elif shape == "return":
-                new.append(ast.copy_location(ast.Return(tail.value), tail))
-            # splice
+                new.append(ast.copy_location(ast.Return(ast.Name(id=res, ctx=ast.Load())), st))
+            elif shape == "test":
+                # the call was (the operand of `not` in) the whole test of an `if`: evaluate first, test the result
+                t = st.test
+                nm = ast.Name(id=res, ctx=ast.Load())
+                st.test = ast.copy_location(ast.UnaryOp(op=ast.Not(), operand=nm), t) if isinstance(t, ast.UnaryOp) else ast.copy_location(nm, t)
+                new.append(st)
             holder = getattr(st, "_parent", None)
             spliced = False
             for fld in ("body", "orelse", "finalbody"):
-                blk = getattr(holder, fld, None)
-                if isinstance(blk, list) and st in blk:
-                    i = blk.index(st)
-                    blk[i:i + 1] = new or [ast.copy_location(ast.Pass(), st)]
+                blk_ = getattr(holder, fld, None)
+                if isinstance(blk_, list) and st in blk_:
+                    i = blk_.index(st)
+                    blk_[i:i + 1] = new or [ast.copy_location(ast.Pass(), st)]
                     spliced = True
                     break
-            if not spliced:
-                continue
+            if not spliced and isinstance(holder, ast.ExceptHandler) and st in holder.body:
+                i = holder.body.index(st)
+                holder.body[i:i + 1] = new
+                spliced = True
+            for x in new:
+                ast.fix_missing_locations(x)
             for par_ in ast.walk(caller.node):
                 for ch in ast.iter_child_nodes(par_):
                     ch._parent = par_
-            done.append(f"{f.qual} -> {caller.qual}")
-            # the helper's own definition is dead code now (its only call site was replaced by its body)
-            dead = getattr(repo, "dead_nodes", None)
-            if dead is None:
-                dead = repo.dead_nodes = set()
-            dead.add(id(h))
-            repo.all_funcs = [x for x in repo.all_funcs if x is not f and x.parent is not f]
-            repo.funcs[f.qual] = [x for x in repo.funcs.get(f.qual, []) if x is not f]
-            changed = True
-            break   # occurrences are stale now: recompute
-        if not changed:
-            break
+            if spliced:
+                done.append(f"{f.qual} -> {caller.qual}")
+        dead = getattr(repo, "dead_nodes", None)
+        if dead is None:
+            dead = repo.dead_nodes = set()
+        dead.add(id(h))
+        repo.all_funcs = [x for x in repo.all_funcs if x is not f and x.parent is not f]
+        repo.funcs[f.qual] = [x for x in repo.funcs.get(f.qual, []) if x is not f]
+        prot.add(name)
     return done
 
 
